@@ -163,6 +163,9 @@ def catalogue(fam, p, rng):
                 inj('subopts', k, i, lambda o, c, v=v: bytes([v]), {'all': 'err InvalidSubscriptionOption %d' % v})
         elif k in ('str', 'topicname', 'filter', 'resptopic', 'protoname'):
             inj('non-utf8:' + k, k, i, _bad_utf8, {'all': 'err InvalidString'})
+            # ill-formed only at the very end: a lead byte / truncated sequence closing the field
+            inj('non-utf8-truncated:' + k, k, i, lambda o, c: o[:-1] + b'\xc3' if len(o) > 2 else o, {'all': 'err InvalidString'})
+            inj('non-utf8-truncated:' + k, k, i, lambda o, c: o[:-2] + b'\xe4\xbd' if len(o) > 3 else o, {'all': 'err InvalidString'})
             # inner length past the end of the frame
             if len(canon) < 60000:
                 inj('inner-length-overrun', k, i, lambda o, c: b'\xff\xff' + o[2:],
@@ -222,8 +225,13 @@ def catalogue(fam, p, rng):
         elif k in ('payload', 'willpayload') and ctx[0] == 1:
             if k == 'payload':
                 inj('payload-format', k, i, lambda o, c: (o[:-1] + b'\xff') if o else o, {'all': 'err InvalidPayloadFormat'})
+                inj('payload-format-truncated', k, i, lambda o, c: (o[:-1] + b'\xc3') if o else o, {'all': 'err InvalidPayloadFormat'})
+                inj('payload-format-truncated', k, i, lambda o, c: (o[:-2] + b'\xe4\xbd') if len(o) > 1 else o, {'all': 'err InvalidPayloadFormat'})
+                inj('payload-format-truncated', k, i, lambda o, c: (o[:-3] + b'\xf0\x9f\x98') if len(o) > 2 else o, {'all': 'err InvalidPayloadFormat'})
             else:
                 inj('payload-format', k, i, lambda o, c: (o[:-1] + b'\xff') if len(o) > 2 else o, {'all': 'err InvalidPayloadFormat'})
+                inj('payload-format-truncated', k, i, lambda o, c: (o[:-1] + b'\xc3') if len(o) > 2 else o, {'all': 'err InvalidPayloadFormat'})
+                inj('payload-format-truncated', k, i, lambda o, c: (o[:-2] + b'\xe4\xbd') if len(o) > 3 else o, {'all': 'err InvalidPayloadFormat'})
     # --- empty subscription list
     if kind in ('subscribe', 'unsubscribe'):
         q = list(p)
